@@ -316,6 +316,69 @@ func init() {
 		sb.WriteString("/-- (handler, first statement is `defer tamePanic(w, r)`) -/\n")
 		sb.WriteString("def handlers : List (String × Bool) :=\n  [" + strings.Join(hs, ",\n   ") + "]\n\n")
 
+		// ---- the error answers of every handler (and of the helper writeResponse): status codes in source order
+		{
+			var hc []string
+			for _, rel := range files {
+				_, f, err := parseFile(rel)
+				if err != nil {
+					return "", err
+				}
+				for _, decl := range f.Decls {
+					fd, ok := decl.(*ast.FuncDecl)
+					if !ok || fd.Body == nil || fd.Recv == nil {
+						continue
+					}
+					isHandler := false
+					if fd.Type.Params != nil && len(fd.Type.Params.List) == 2 {
+						p0, p1 := exprTextNoPos(fd.Type.Params.List[0].Type), exprTextNoPos(fd.Type.Params.List[1].Type)
+						isHandler = p0 == "http.ResponseWriter" && p1 == "*http.Request"
+					}
+					if !isHandler && fd.Name.Name != "writeResponse" {
+						continue
+					}
+					var codes []string
+					bad := ""
+					ast.Inspect(fd.Body, func(n ast.Node) bool {
+						ce, ok := n.(*ast.CallExpr)
+						if !ok {
+							return true
+						}
+						id, ok := ce.Fun.(*ast.Ident)
+						if !ok {
+							return true
+						}
+						var arg ast.Expr
+						switch id.Name {
+						case "PromError":
+							if len(ce.Args) > 0 {
+								arg = ce.Args[0]
+							}
+						case "defaultError":
+							if len(ce.Args) > 1 {
+								arg = ce.Args[1]
+							}
+						default:
+							return true
+						}
+						if bl, ok := arg.(*ast.BasicLit); ok && bl.Kind == token.INT {
+							codes = append(codes, bl.Value)
+						} else {
+							bad = funcName(fd) + ": the status of an error answer is not a literal: " + exprTextNoPos(ce)
+						}
+						return true
+					})
+					if bad != "" {
+						return "", fmt.Errorf("%s", bad)
+					}
+					hc = append(hc, fmt.Sprintf("(%s, [%s])", leanStr(funcName(fd)), strings.Join(codes, ", ")))
+				}
+			}
+			sort.Strings(hc)
+			sb.WriteString("/-- (handler, the status codes of its PromError / defaultError calls, in source order) -/\n")
+			sb.WriteString("def handlerCodes : List (String × List Nat) :=\n  [" + strings.Join(hc, ",\n   ") + "]\n\n")
+		}
+
 		// ---- guard conditions mirrored by the model
 		// only: "" = every condition; otherwise only the conditions mentioning it (the index/size guards — the
 		// value comparisons of min/max/first belong to other properties)
